@@ -782,12 +782,16 @@ impl World {
                             }
                             continue;
                         };
-                        if check && (m.len() != len || m.parts != 1) {
+                        if check && m.len() != len {
                             return Err(Fail::new("emitted_wrong_message", format!("small packet carries message id {mid} with {len} bytes, submitted {} bytes", m.len())));
                         }
-                        m.tx_ms[0].push(now);
-                        m.carriers[0].push(pid);
-                        sent_units.insert((ch, mid, 0));
+                        // (a message a little above one slice that travels whole is carried, in all its parts, by this packet: where the
+                        // library draws the line between whole and sliced is not part of any statement)
+                        for part in 0..m.parts {
+                            m.tx_ms[part].push(now);
+                            m.carriers[part].push(pid);
+                            sent_units.insert((ch, mid, part));
+                        }
                     }
                 }
                 PInfo::RelSlice { ch, mid, idx, n, len } => {
@@ -824,7 +828,9 @@ impl World {
                             if let Some(&i) = c.iter().find(|&&i| !cm.msgs[i].flushed) {
                                 cm.msgs[i].flushed = true;
                                 cm.msgs[i].sent_in_flush = Some(flush_no);
-                                cm.msgs[i].carriers[0].push(pid);
+                                for part in 0..cm.msgs[i].parts {
+                                    cm.msgs[i].carriers[part].push(pid);
+                                }
                                 continue;
                             }
                         }
